@@ -273,6 +273,17 @@ class Builtins:
         cx = self.cx
         seq = st.heap[obj.oid].payload
         if seq is None:
+            items = st.heap[obj.oid].meta.get("pyitems")
+            if items is not None and isinstance(key, VSlice):
+                def cst(c):
+                    if z3.is_true(z3.simplify(c.is_none)):
+                        return None
+                    v = z3.simplify(c.t)
+                    if z3.is_false(z3.simplify(c.is_none)) and z3.is_int_value(v):
+                        return v.as_long()
+                    raise Unsupported("symbolic slice of a concrete-only list")
+                sl = slice(cst(key.start), cst(key.stop), cst(key.step))
+                return self.new_list_from_values(list(items)[sl], st, k)
             raise Unsupported("indexing a concrete-only list")
         n = z3.Length(seq)
         if isinstance(key, (VInt, VBool)):
